@@ -51,16 +51,21 @@ Record actor := mkActor {
 
 Definition actor0 : actor := mkActor true true [] None [].
 
+(* a multi_call in progress: its targets, the request ids created so far (in target order),
+   whether a send was refused (the whole call then returns Err) *)
+Record cgroup := mkCG { gg_targets : list nat; gg_tmo : option N; gg_ids : list nat; gg_failed : bool }.
+
 Record state := mkState {
   now : N;
   wheel : N;                            (* clock value at the last turn of tokio's time driver *)
   calls : list call;
   actors : list actor;
   fwds : list (nat * N * N * bool);     (* forwards attempted: call, value, time, accepted? *)
-  replies : list (nat * N)              (* ghost: every (call, value) sent on a held port, in order *)
+  replies : list (nat * N);             (* ghost: every (call, value) sent on a held port, in order *)
+  groups : list cgroup                  (* multi_calls (changed only by the x-labels below) *)
 }.
 
-Definition init (t : N) (n : nat) : state := mkState t t [] (repeat actor0 n) [] [].
+Definition init (t : N) (n : nat) : state := mkState t t [] (repeat actor0 n) [] [] [].
 
 Inductive label :=
 | Advance (dt : N)
@@ -123,10 +128,10 @@ Definition forward (s : state) (c : nat) (cl : call) (v : N) : list (nat * N * N
 
 Definition step (s : state) (l : label) : state :=
   match l with
-  | Advance dt => mkState (now s + dt) (wheel s) (calls s) (actors s) (fwds s) (replies s)
-  | Drive => mkState (now s) (now s) (calls s) (actors s) (fwds s) (replies s)
+  | Advance dt => mkState (now s + dt) (wheel s) (calls s) (actors s) (fwds s) (replies s) (groups s)
+  | Drive => mkState (now s) (now s) (calls s) (actors s) (fwds s) (replies s) (groups s)
   | NewCall a tmo fwd =>
-      mkState (now s) (wheel s) (calls s ++ [mkCall a tmo fwd 0 CNew ChOpen LNone None]) (actors s) (fwds s) (replies s)
+      mkState (now s) (wheel s) (calls s ++ [mkCall a tmo fwd 0 CNew ChOpen LNone None]) (actors s) (fwds s) (replies s) (groups s)
   | Start c =>
       match nth_error (calls s) c with
       | Some cl =>
@@ -139,16 +144,16 @@ Definition step (s : state) (l : label) : state :=
                         ChOpen LMbox None))
                      (upd (actors s) (c_callee cl)
                         (mkActor (a_alive ac) (a_accept ac) (a_mbox ac ++ [c]) (a_cur ac) (a_stored ac)))
-                     (fwds s) (replies s)
+                     (fwds s) (replies s) (groups s)
               else mkState (now s) (wheel s)
                      (upd (calls s) c (mkCall (c_callee cl) (c_tmo cl) (c_fwd cl) (now s)
                         (CGot RSendFailed (now s)) ChClosed LGone None))
-                     (actors s) (fwds s) (replies s)
+                     (actors s) (fwds s) (replies s) (groups s)
           | CNew, None =>
               mkState (now s) (wheel s)
                 (upd (calls s) c (mkCall (c_callee cl) (c_tmo cl) (c_fwd cl) (now s)
                    (CGot RSendFailed (now s)) ChClosed LGone None))
-                (actors s) (fwds s) (replies s)
+                (actors s) (fwds s) (replies s) (groups s)
           | _, _ => s
           end
       | None => s
@@ -158,7 +163,7 @@ Definition step (s : state) (l : label) : state :=
       | Some cl =>
           match c_st cl with
           | CWaiting _ => mkState (now s) (wheel s) (upd (calls s) c (set_call cl (CGot RAbandoned (now s)) (c_ch cl) (c_loc cl) (c_first cl)))
-                                  (actors s) (fwds s) (replies s)
+                                  (actors s) (fwds s) (replies s) (groups s)
           | _ => s
           end
       | None => s
@@ -174,7 +179,7 @@ Definition step (s : state) (l : label) : state :=
                   | LMbox =>
                       mkState (now s) (wheel s) (upd (calls s) c (set_call cl (c_st cl) (c_ch cl) LHandler (c_first cl)))
                               (upd (actors s) a (mkActor true (a_accept ac) rest (Some c) (a_stored ac)))
-                              (fwds s) (replies s)
+                              (fwds s) (replies s) (groups s)
                   | _ => s
                   end
               | None => s
@@ -194,7 +199,7 @@ Definition step (s : state) (l : label) : state :=
                           (mkActor (a_alive ac) (a_accept ac) (a_mbox ac) (a_cur ac) (remove_id c (a_stored ac)))
                   | _, _ => actors s
                   end)
-                 (fwds s) (replies s ++ [(c, v)])
+                 (fwds s) (replies s ++ [(c, v)]) (groups s)
           else s
       | None => s
       end
@@ -209,7 +214,7 @@ Definition step (s : state) (l : label) : state :=
                           (mkActor (a_alive ac) (a_accept ac) (a_mbox ac) (a_cur ac) (remove_id c (a_stored ac)))
                   | _, _ => actors s
                   end)
-                 (fwds s) (replies s)
+                 (fwds s) (replies s) (groups s)
           else s
       | None => s
       end
@@ -221,7 +226,7 @@ Definition step (s : state) (l : label) : state :=
               mkState (now s) (wheel s) (upd (calls s) c (set_call cl (c_st cl) (c_ch cl) LStored (c_first cl)))
                       (upd (actors s) (c_callee cl)
                            (mkActor (a_alive ac) (a_accept ac) (a_mbox ac) (a_cur ac) (a_stored ac ++ [c])))
-                      (fwds s) (replies s)
+                      (fwds s) (replies s) (groups s)
           | _, _ => s
           end
       | None => s
@@ -232,7 +237,7 @@ Definition step (s : state) (l : label) : state :=
           match c_loc cl with
           | LHandler =>
               mkState (now s) (wheel s) (upd (calls s) c (set_call cl (c_st cl) (c_ch cl) LTask (c_first cl)))
-                      (actors s) (fwds s) (replies s)
+                      (actors s) (fwds s) (replies s) (groups s)
           | LStored =>
               mkState (now s) (wheel s) (upd (calls s) c (set_call cl (c_st cl) (c_ch cl) LTask (c_first cl)))
                       (match nth_error (actors s) (c_callee cl) with
@@ -240,7 +245,7 @@ Definition step (s : state) (l : label) : state :=
                                         (mkActor (a_alive ac) (a_accept ac) (a_mbox ac) (a_cur ac) (remove_id c (a_stored ac)))
                        | None => actors s
                        end)
-                      (fwds s) (replies s)
+                      (fwds s) (replies s) (groups s)
           | _ => s
           end
       | None => s
@@ -256,7 +261,7 @@ Definition step (s : state) (l : label) : state :=
                  | None => calls s
                  end)
                 (upd (actors s) a (mkActor (a_alive ac) (a_accept ac) (a_mbox ac) None (a_stored ac)))
-                (fwds s) (replies s)
+                (fwds s) (replies s) (groups s)
           | None => s
           end
       | None => s
@@ -267,7 +272,7 @@ Definition step (s : state) (l : label) : state :=
           if a_alive ac
           then mkState (now s) (wheel s) (map (exit_call a) (calls s))
                        (upd (actors s) a (mkActor false (a_accept ac) [] None []))
-                       (fwds s) (replies s)
+                       (fwds s) (replies s) (groups s)
           else s
       | None => s
       end
@@ -275,7 +280,7 @@ Definition step (s : state) (l : label) : state :=
       match nth_error (actors s) a with
       | Some ac => mkState (now s) (wheel s) (calls s)
                      (upd (actors s) a (mkActor (a_alive ac) false (a_mbox ac) (a_cur ac) (a_stored ac)))
-                     (fwds s) (replies s)
+                     (fwds s) (replies s) (groups s)
       | None => s
       end
   | Poll c =>
@@ -286,16 +291,16 @@ Definition step (s : state) (l : label) : state :=
               match c_ch cl with
               | ChFull v =>            (* tokio::time::timeout polls the inner future first *)
                   mkState (now s) (wheel s) (upd (calls s) c (set_call cl (CGot (RSuccess v) (now s)) (c_ch cl) (c_loc cl) (c_first cl)))
-                          (actors s) (forward s c cl v) (replies s)
+                          (actors s) (forward s c cl v) (replies s) (groups s)
               | ChClosed =>
                   mkState (now s) (wheel s) (upd (calls s) c (set_call cl (CGot RSenderError (now s)) (c_ch cl) (c_loc cl) (c_first cl)))
-                          (actors s) (fwds s) (replies s)
+                          (actors s) (fwds s) (replies s) (groups s)
               | ChOpen =>
                   match dl with
                   | Some D =>
                       if elapsed (wheel s) D
                       then mkState (now s) (wheel s) (upd (calls s) c (set_call cl (CGot RTimeout (now s)) (c_ch cl) (c_loc cl) (c_first cl)))
-                                   (actors s) (fwds s) (replies s)
+                                   (actors s) (fwds s) (replies s) (groups s)
                       else s
                   | None => s
                   end
@@ -310,6 +315,78 @@ Definition run (ls : list label) (s : state) : state := fold_left step ls s.
 
 (* the caller of c has nothing left to do when polled *)
 Definition caller_quiescent (s : state) (c : nat) : Prop := step s (Poll c) = s.
+
+(* ---------- multi_call as part of the model ----------
+   rpc::multi_call sends one request per target, in order, each with a fresh port; the first
+   refused send aborts the whole call (the receivers created so far are dropped).  Its result
+   vector is assembled from the request ids in `gg_ids`.  One `XMultiSend g` is one iteration
+   of the send loop, so other tasks' labels may be interleaved anywhere (a superset of the real
+   schedules); several multi_calls may be in progress at once. *)
+Inductive xlabel :=
+| XL (l : label)
+| XNewMulti (ts : list nat) (tmo : option N)
+| XMultiSend (g : nat).
+
+Definition set_groups (s : state) (gs : list cgroup) : state :=
+  mkState (now s) (wheel s) (calls s) (actors s) (fwds s) (replies s) gs.
+
+Definition xstep (s : state) (x : xlabel) : state :=
+  match x with
+  | XL l => step s l
+  | XNewMulti ts tmo => set_groups s (groups s ++ [mkCG ts tmo [] false])
+  | XMultiSend g =>
+      match nth_error (groups s) g with
+      | Some gr =>
+          if gg_failed gr then s else
+          match nth_error (gg_targets gr) (length (gg_ids gr)) with
+          | None => s
+          | Some a =>
+              let c := length (calls s) in
+              let s1 := step (step s (NewCall a (gg_tmo gr) None)) (Start c) in
+              match nth_error (calls s1) c with
+              | Some cl =>
+                  match c_st cl with
+                  | CWaiting _ =>
+                      set_groups s1 (upd (groups s1) g (mkCG (gg_targets gr) (gg_tmo gr) (gg_ids gr ++ [c]) false))
+                  | _ =>
+                      let s2 := fold_left (fun ss i => step ss (Abandon i)) (gg_ids gr) s1 in
+                      set_groups s2 (upd (groups s2) g (mkCG (gg_targets gr) (gg_tmo gr) (gg_ids gr ++ [c]) true))
+                  end
+              | None => s1
+              end
+          end
+      | None => s
+      end
+  end.
+
+Definition xrun (xls : list xlabel) (s : state) : state := fold_left xstep xls s.
+
+(* results as the caller of multi_call sees them *)
+Inductive ores := OSuccess (v : N) | OSenderError | OTimeout | OSendFailed | OPending.
+Definition ores_of (st : cst) : ores * N :=
+  match st with
+  | CGot (RSuccess v) t => (OSuccess v, t)
+  | CGot RSenderError t => (OSenderError, t)
+  | CGot RTimeout t => (OTimeout, t)
+  | CGot RSendFailed t => (OSendFailed, t)
+  | CGot RAbandoned t => (OPending, 0)
+  | _ => (OPending, 0)
+  end.
+
+Inductive gres := GErr | GOk (rs : list ores) (t : N) | GPending.
+Definition all_done (s : state) (ids : list nat) : bool :=
+  forallb (fun c => match nth_error (calls s) c with
+                    | Some cl => match c_st cl with CGot _ _ => true | _ => false end
+                    | None => false end) ids.
+Definition res_of (s : state) (c : nat) : ores :=
+  match nth_error (calls s) c with Some cl => fst (ores_of (c_st cl)) | None => OPending end.
+(* Err if a send was refused, else the vector once every request was sent and has returned *)
+Definition gres_of (s : state) (g : cgroup) : gres :=
+  if gg_failed g then GErr
+  else if Nat.eqb (length (gg_ids g)) (length (gg_targets g)) && all_done s (gg_ids g)
+       then GOk (map (res_of s) (gg_ids g))
+                (fold_left N.max (map (fun c => match nth_error (calls s) c with Some cl => snd (ores_of (c_st cl)) | None => 0 end) (gg_ids g)) 0)
+       else GPending.
 
 (* ================= deterministic driver for the correspondence check =================
    The harness gates every callee handler on a per-request semaphore: the handler of request
@@ -343,7 +420,6 @@ Definition task_eqb (x y : task) : bool :=
   end.
 Definition push (x : task) (q : list task) : list task := if existsb (task_eqb x) q then q else q ++ [x].
 
-Record group := mkGroup { g_targets : list nat; g_tmo : option N; g_ids : list nat; g_failed : bool; g_started : bool }.
 
 Record drv := mkDrv {
   d_s : state;
@@ -351,15 +427,15 @@ Record drv := mkDrv {
   d_plans : list (nat * plan);
   d_tplans : list (nat * taction);
   d_kill : list nat; d_stop : list nat; d_drain : list nat;
-  d_groups : list group;
-  d_ls : list label            (* labels executed so far, reversed *)
+  d_ls : list xlabel           (* labels executed so far, reversed *)
 }.
 
-Definition with_s (d : drv) (s : state) (ls : list label) : drv :=
-  mkDrv s (d_q d) (d_plans d) (d_tplans d) (d_kill d) (d_stop d) (d_drain d) (d_groups d) ls.
+Definition with_s (d : drv) (s : state) (ls : list xlabel) : drv :=
+  mkDrv s (d_q d) (d_plans d) (d_tplans d) (d_kill d) (d_stop d) (d_drain d) ls.
 Definition with_q (d : drv) (q : list task) : drv :=
-  mkDrv (d_s d) q (d_plans d) (d_tplans d) (d_kill d) (d_stop d) (d_drain d) (d_groups d) (d_ls d).
-Definition dstep (d : drv) (l : label) : drv := with_s d (step (d_s d) l) (l :: d_ls d).
+  mkDrv (d_s d) q (d_plans d) (d_tplans d) (d_kill d) (d_stop d) (d_drain d) (d_ls d).
+Definition dstep (d : drv) (l : label) : drv := with_s d (step (d_s d) l) (XL l :: d_ls d).
+Definition dxstep (d : drv) (x : xlabel) : drv := with_s d (xstep (d_s d) x) (x :: d_ls d).
 Definition dpush (d : drv) (t : task) : drv := with_q d (push t (d_q d)).
 
 Fixpoint assoc {A} (k : nat) (l : list (nat * A)) : option A :=
@@ -467,38 +543,37 @@ Definition run_start (c : nat) (d : drv) : drv :=
   | None => d
   end.
 
-Definition upd_group (d : drv) (g : nat) (x : group) : drv :=
-  mkDrv (d_s d) (d_q d) (d_plans d) (d_tplans d) (d_kill d) (d_stop d) (d_drain d) (upd (d_groups d) g x) (d_ls d).
-
-(* multi_call: one request per target in order; the first refused send aborts the whole call
-   and drops the receivers created so far *)
-Fixpoint multi_send (ts : list nat) (tmo : option N) (d : drv) (ids : list nat) : drv * list nat * bool :=
-  match ts with
-  | [] => (d, ids, false)
-  | a :: r =>
-      let c := length (calls (d_s d)) in
-      let d1 := start_only c (dstep d (NewCall a tmo None)) in
-      match nth_error (calls (d_s d1)) c with
-      | Some cl =>
-          match c_st cl with
-          | CWaiting _ => multi_send r tmo d1 (ids ++ [c])
-          | _ => (fold_left (fun dd i => dstep dd (Abandon i)) ids d1, ids ++ [c], true)
-          end
-      | None => (d1, ids, true)
+(* multi_call's task: the send loop (an accepted send wakes that callee), then the receivers
+   are awaited by freshly spawned tasks, first polled after everything already queued *)
+Fixpoint multi_loop (fuel : nat) (g : nat) (d : drv) : drv :=
+  match fuel with
+  | O => d
+  | S f =>
+      match nth_error (groups (d_s d)) g with
+      | Some gr =>
+          if gg_failed gr then d
+          else match nth_error (gg_targets gr) (length (gg_ids gr)) with
+               | None => d
+               | Some a =>
+                   let d1 := dxstep d (XMultiSend g) in
+                   multi_loop f g
+                     (match nth_error (groups (d_s d1)) g with
+                      | Some gr1 => if gg_failed gr1 then d1 else dpush d1 (TActor a)
+                      | None => d1
+                      end)
+               end
+      | None => d
       end
   end.
 
 Definition run_multi (g : nat) (d : drv) : drv :=
-  match nth_error (d_groups d) g with
+  match nth_error (groups (d_s d)) g with
   | Some gr =>
-      if g_started gr then d
-      else match multi_send (g_targets gr) (g_tmo gr) d [] with
-           | (d1, ids, failed) =>
-               (* the receivers are awaited by freshly spawned tasks: first polled after everything
-                  already queued *)
-               let d2 := upd_group d1 g (mkGroup (g_targets gr) (g_tmo gr) ids failed true) in
-               if failed then d2 else fold_left (fun dd c => dpush dd (TPoll c)) ids d2
-           end
+      let d1 := multi_loop (S (length (gg_targets gr))) g d in
+      match nth_error (groups (d_s d1)) g with
+      | Some gr1 => if gg_failed gr1 then d1 else fold_left (fun dd c => dpush dd (TPoll c)) (gg_ids gr1) d1
+      | None => d1
+      end
   | None => d
   end.
 
@@ -547,9 +622,9 @@ Definition settle_full (tf f : nat) (d : drv) : drv :=
   settle tf f (wake_fired (dstep (settle tf f d) Drive)).
 
 Definition add_plan (d : drv) (c : nat) (p : plan) : drv :=
-  mkDrv (d_s d) (d_q d) ((c, p) :: d_plans d) (d_tplans d) (d_kill d) (d_stop d) (d_drain d) (d_groups d) (d_ls d).
+  mkDrv (d_s d) (d_q d) ((c, p) :: d_plans d) (d_tplans d) (d_kill d) (d_stop d) (d_drain d) (d_ls d).
 Definition add_tplan (d : drv) (c : nat) (t : taction) : drv :=
-  mkDrv (d_s d) (d_q d) (d_plans d) ((c, t) :: d_tplans d) (d_kill d) (d_stop d) (d_drain d) (d_groups d) (d_ls d).
+  mkDrv (d_s d) (d_q d) (d_plans d) ((c, t) :: d_tplans d) (d_kill d) (d_stop d) (d_drain d) (d_ls d).
 
 Definition exec_op_gen (tf f : nat) (d : drv) (o : op) : drv :=
   match o with
@@ -558,9 +633,7 @@ Definition exec_op_gen (tf f : nat) (d : drv) (o : op) : drv :=
   | OFwd a b tmo =>
       let c := length (calls (d_s d)) in dpush (dstep d (NewCall a tmo (Some b))) (TStart c)
   | OMulti ts tmo =>
-      let g := length (d_groups d) in
-      dpush (mkDrv (d_s d) (d_q d) (d_plans d) (d_tplans d) (d_kill d) (d_stop d) (d_drain d)
-                   (d_groups d ++ [mkGroup ts tmo [] false false]) (d_ls d)) (TMulti g)
+      let g := length (groups (d_s d)) in dpush (dxstep d (XNewMulti ts tmo)) (TMulti g)
   | OAct c p =>
       match assoc c (d_plans d) with
       | Some _ => d
@@ -591,13 +664,13 @@ Definition exec_op_gen (tf f : nat) (d : drv) (o : op) : drv :=
       end
   | OKill a =>
       if mem a (d_kill d) then d else     (* the signal port is a oneshot: later kills send nothing *)
-      dpush (mkDrv (d_s d) (d_q d) (d_plans d) (d_tplans d) (a :: d_kill d) (d_stop d) (d_drain d) (d_groups d) (d_ls d)) (TActor a)
+      dpush (mkDrv (d_s d) (d_q d) (d_plans d) (d_tplans d) (a :: d_kill d) (d_stop d) (d_drain d) (d_ls d)) (TActor a)
   | OStop a =>
       if mem a (d_stop d) then d else
-      dpush (mkDrv (d_s d) (d_q d) (d_plans d) (d_tplans d) (d_kill d) (a :: d_stop d) (d_drain d) (d_groups d) (d_ls d)) (TActor a)
+      dpush (mkDrv (d_s d) (d_q d) (d_plans d) (d_tplans d) (d_kill d) (a :: d_stop d) (d_drain d) (d_ls d)) (TActor a)
   | ODrain a =>
       if mem a (d_drain d) then d else
-      dpush (dstep (mkDrv (d_s d) (d_q d) (d_plans d) (d_tplans d) (d_kill d) (d_stop d) (a :: d_drain d) (d_groups d) (d_ls d))
+      dpush (dstep (mkDrv (d_s d) (d_q d) (d_plans d) (d_tplans d) (d_kill d) (d_stop d) (a :: d_drain d) (d_ls d))
                    (StopAccept a)) (TActor a)
   | OSettle => settle_full tf f d
   | OAdv dt => wake_fired (dstep (dstep (settle_full tf f d) (Advance dt)) Drive)
@@ -606,36 +679,10 @@ Definition exec_op_gen (tf f : nat) (d : drv) (o : op) : drv :=
 
 Definition exec_op := exec_op_gen FUEL FUEL.
 
-Definition drv0 (n : nat) : drv := mkDrv (init 0 n) [] [] [] [] [] [] [] [].
+Definition drv0 (n : nat) : drv := mkDrv (init 0 n) [] [] [] [] [] [] [].
 Definition exec (n : nat) (ops : list op) : drv := fold_left exec_op ops (drv0 n).
 
 (* ---------- observations ---------- *)
-Inductive ores := OSuccess (v : N) | OSenderError | OTimeout | OSendFailed | OPending.
-Definition ores_of (st : cst) : ores * N :=
-  match st with
-  | CGot (RSuccess v) t => (OSuccess v, t)
-  | CGot RSenderError t => (OSenderError, t)
-  | CGot RTimeout t => (OTimeout, t)
-  | CGot RSendFailed t => (OSendFailed, t)
-  | CGot RAbandoned t => (OPending, 0)
-  | _ => (OPending, 0)
-  end.
-
-(* multi_call result: Err if a send was refused, else the vector once every member returned *)
-Inductive gres := GErr | GOk (rs : list ores) (t : N) | GPending.
-Definition all_done (s : state) (ids : list nat) : bool :=
-  forallb (fun c => match nth_error (calls s) c with
-                    | Some cl => match c_st cl with CGot _ _ => true | _ => false end
-                    | None => false end) ids.
-Definition gres_of (s : state) (g : group) : gres :=
-  if negb (g_started g) then GPending
-  else if g_failed g then GErr
-  else if all_done s (g_ids g)
-       then GOk (map (fun c => match nth_error (calls s) c with Some cl => fst (ores_of (c_st cl)) | None => OPending end) (g_ids g))
-                (fold_left N.max (map (fun c => match nth_error (calls s) c with Some cl => snd (ores_of (c_st cl)) | None => 0 end) (g_ids g))
-                   (match g_ids g with [] => 0 | _ => 0 end))
-       else GPending.
-
 Record ocall := mkOC {
   oc_res : ores; oc_done : N; oc_t0 : N; oc_started : bool;
   oc_tmo : option N; oc_callee : nat; oc_fwd : option nat
@@ -648,8 +695,8 @@ Record obs := mkObs {
   o_alive : list bool                   (* actors still alive at the end *)
 }.
 
-Definition member_of_group (d : drv) (c : nat) : bool :=
-  existsb (fun g => mem c (g_ids g)) (d_groups d).
+Definition member_of_group (s : state) (c : nat) : bool :=
+  existsb (fun g => mem c (gg_ids g)) (groups s).
 
 Definition started (st : cst) : bool := match st with CNew => false | _ => true end.
 
@@ -657,11 +704,11 @@ Definition observe (n : nat) (ops : list op) : obs :=
   let d := exec n (ops ++ [OSettle]) in
   let s := d_s d in
   mkObs (map (fun ic => let (i, cl) := (ic : nat * call) in
-                        let (r, t) := if member_of_group d i then (OPending, 0) else ores_of (c_st cl) in
+                        let (r, t) := if member_of_group s i then (OPending, 0) else ores_of (c_st cl) in
                         mkOC r t (if started (c_st cl) then c_t0 cl else 0) (started (c_st cl))
                              (c_tmo cl) (c_callee cl) (c_fwd cl))
              (combine (seq 0 (length (calls s))) (calls s)))
-        (map (fun g => (gres_of s g, g_ids g)) (d_groups d))
+        (map (fun g => (gres_of s g, gg_ids g)) (groups s))
         (fwds s)
         (map a_alive (actors s)).
 
